@@ -424,6 +424,12 @@ int lzxd_decompress(struct lzxd_stream *lzx, off_t out_bytes) {
   end_frame = (unsigned int)((lzx->offset + out_bytes) / LZX_FRAME_SIZE) + 1;
 
   while (lzx->frame < end_frame) {
+    /* a request that ends on the last frame boundary asks for one frame more
+     * than the stream has: when its whole length has been decoded there is
+     * nothing further to read (at a reset point the stream header would be
+     * re-read past the end of the input) */
+    if (lzx->length && lzx->offset >= lzx->length) break;
+
     /* have we reached the reset interval? (if there is one?) */
     if (lzx->reset_interval && ((lzx->frame % lzx->reset_interval) == 0)) {
       if (lzx->block_remaining) {
